@@ -5,6 +5,7 @@
 import Swiftness.Proofs.FriLayerStep
 import Swiftness.Proofs.FriLayerCount
 import Swiftness.Proofs.FriLayerFuel
+import Mathlib.Data.Finset.Sort
 
 namespace Swiftness.Proofs
 open Swiftness Fri FoldSpec
@@ -76,5 +77,12 @@ theorem nextLayer_consumes (k : ℕ) (hk4 : k ≤ 4) (b : Felt) (yv xi : ℕ →
   intro r h
   have := nextLayer_count k hk4 b yv xi qi cidx hq hqb hc hmem sibs r h
   omega
+
+/-- the list of touched cosets exists (and is unique, being sorted with prescribed members) -/
+theorem cosetIndices_exists (qi : List ℕ) (n : ℕ) :
+    ∃ cidx : List ℕ, cidx.Pairwise (· < ·) ∧ ∀ c, c ∈ cidx ↔ ∃ q ∈ qi, q / n = c := by
+  refine ⟨((qi.map (· / n)).toFinset).sort (· ≤ ·), ?_, ?_⟩
+  · exact (Finset.sortedLT_sort _).pairwise
+  · intro c; simp [Finset.mem_sort]
 
 end Swiftness.Proofs
